@@ -22,6 +22,13 @@ inductive Fault where
   | need (query : List (List Char))
   deriving DecidableEq, Repr
 
+instance {ε α : Type} [DecidableEq ε] [DecidableEq α] : DecidableEq (Except ε α) := fun a b =>
+  match a, b with
+  | .ok x, .ok y => if h : x = y then isTrue (by rw [h]) else isFalse (fun e => h (by injection e))
+  | .error x, .error y => if h : x = y then isTrue (by rw [h]) else isFalse (fun e => h (by injection e))
+  | .ok _, .error _ => isFalse (fun e => by cases e)
+  | .error _, .ok _ => isFalse (fun e => by cases e)
+
 /-- literal helper: `B "##!>"` -/
 @[inline] def B (s : String) : Bytes := s.toList
 
@@ -114,24 +121,22 @@ def dropCR (l : Bytes) : Bytes :=
   | some '\r' => l.dropLast
   | _ => l
 
+/-- all lines of the file: split at `\n`, without the empty remainder after a final `\n` -/
+def rawLines (b : Bytes) : List Bytes :=
+  match (splitNl b).getLast? with
+  | some [] => (splitNl b).dropLast
+  | _ => splitNl b
+
 /-- `bufio.Scanner` with `bufio.ScanLines` and a buffer that never overflows: split at `\n`,
     drop one trailing `\r` per line, a final unterminated line is kept, no line for the empty
     remainder after a final `\n`. -/
-def scanLines (b : Bytes) : List Bytes :=
-  let ls := splitNl b
-  (match ls.getLast? with
-   | some [] => ls.dropLast
-   | _ => ls).map dropCR
+def scanLines (b : Bytes) : List Bytes := (rawLines b).map dropCR
 
 /-- `bufio.Scanner` with the default 64 KiB token limit: scanning stops (silently, `Err()` is never
     inspected by the toolchain) at the first line of `max` or more bytes. `scanLines` is the case
     without limit; the toolchain now sets `math.MaxInt` at every site (C17). -/
 def scanLinesLim (max : Nat) (b : Bytes) : List Bytes :=
-  let ls := splitNl b
-  let ls := match ls.getLast? with
-            | some [] => ls.dropLast
-            | _ => ls
-  (ls.takeWhile (fun l => l.length < max)).map dropCR
+  ((rawLines b).takeWhile (fun l => l.length < max)).map dropCR
 
 def digitChar (d : Nat) : Char := Char.ofNat (48 + d)
 
